@@ -184,6 +184,13 @@ class TokenParser:
         if k == 'lpar':
             self.take()
             e = self.expr(1)
+            if self.peek()[0] == 'comma':          # union of references: (a, b, …)
+                areas = [e]
+                while self.peek()[0] == 'comma':
+                    self.take()
+                    areas.append(self.expr(1))
+                self.take('rpar')
+                return ('union', areas)
             self.take('rpar')
             return e
         if k == 'fn':
